@@ -1578,6 +1578,21 @@ impl<T: Storage> Raft<T> {
             return;
         }
 
+        // A node whose own vote is a quorum becomes leader inside this call, without any
+        // persisted vote message in between, so its log must be fully persisted first
+        // (see the assertion in `become_leader`).
+        if self.raft_log.persisted < self.raft_log.last_index() {
+            let mut only_self = crate::HashSet::default();
+            only_self.insert(self.id);
+            if self.prs.has_quorum(&only_self) {
+                warn!(
+                    self.logger,
+                    "cannot campaign at term {} since there are still unpersisted entries", self.term
+                );
+                return;
+            }
+        }
+
         info!(
             self.logger,
             "starting a new election";
